@@ -14,43 +14,43 @@ import (
 func init() {
 	Register(&Property{
 		ID:    "C10",
-		Floor: 60,
-		Clauses: "inflow.avail/unsent written only by inflow.init/add/take and takeInflows, init/take/add called only from the connection set-up, DATA-processing, body Read/Close and sendWindowUpdate functions; " +
-			"inflow.add: negative and >2^31-1 panic guards dominate both stores, the batching return keeps the amount in unsent, the flush return hands back unsent+n and zeroes unsent; take/takeInflows decrement only under their capacity tests; " +
+		Floor: 78,
+		Clauses: "inflow.avail/unsent written hcOnly by inflow.init/add/take and takeInflows, init/take/add called hcOnly from the connection set-up, DATA-processing, body Read/Close and sendWindowUpdate functions; " +
+			"inflow.add: negative and >2^31-1 panic guards dominate both stores, the batching return keeps the amount in unsent, the flush return hands back unsent+n and zeroes unsent; take/takeInflows decrement hcOnly under their capacity tests; " +
 			"server and client DATA processing: after every successful take/takeInflows of connection credit every path to a normal return passes a connection-level refund (sendWindowUpdate(nil,…) / cc.inflow.add), discard paths refund exactly the taken frame length, the body-write-error path refunds length−written, padding is refunded as length−len(data); " +
-			"server closeStream refunds pipe.Len() before closing the body pipe; requestBody.Read reports the pipe.Read count through noteBodyReadFromHandler→bodyReadCh→noteBodyRead→sendWindowUpdate(nil,n); " +
+			"server closeStream refunds pipe.Len() before closing the body pipe, and those bytes cannot be refunded a second time through a later handler read (pipe broken, or noteBodyRead skips closed streams); requestBody.Read reports the pipe.Read count through noteBodyReadFromHandler→bodyReadCh→noteBodyRead→sendWindowUpdate(nil,n); " +
 			"client transportResponseBody.Read: every path after bufPipe.Read that is not excused by a count==0 / error!=nil branch passes cc.inflow.add with exactly the bufPipe.Read count; Close refunds bufPipe.Len() taken after BreakWithError; " +
-			"the result of every inflow.add reaches Framer.WriteWindowUpdate (stream 0 for connection windows) or writeWindowUpdate.n on every path not excused by a result==0 branch; writeWindowUpdate built only in sendWindowUpdate and written with its own n; " +
-			"pipe: Write refuses after close/break (so late DATA takes the refund path), Read/dataBuffer.Read return n==0 with every error, unread is accumulated only in closeWithError.",
+			"the result of every inflow.add reaches Framer.WriteWindowUpdate (stream 0 for connection windows) or writeWindowUpdate.n on every path not excused by a result==0 branch; writeWindowUpdate built hcOnly in sendWindowUpdate and written with its own n; " +
+			"pipe: Write refuses after close/break (so late DATA takes the refund path), Read/dataBuffer.Read return n==0 with every error, unread is accumulated hcOnly in closeWithError.",
 		NotCovered: "that batched (below inflowMinRefresh) credit is eventually flushed; that WINDOW_UPDATE frames queued on the server are eventually written; arithmetic over histories (sum of refunds == sum of DATA); " +
 			"client streams torn down without Close (cleanupWriteRequest closes bufPipe without a refund); client DATA rejected before the flow-control take (after END_STREAM, before HEADERS, on HEAD) is not charged to cc.inflow at all; " +
-			"server double accounting when a handler reads bytes that closeStream already refunded; stream-level windows beyond the padding refund.",
+			"stream-level windows beyond the padding refund.",
 		Run: c10,
 	})
 }
 
 const (
-	c10Add        = "(*http2.inflow).add"
-	c10Take       = "(*http2.inflow).take"
-	c10TakeBoth   = "http2.takeInflows"
-	c10Init       = "(*http2.inflow).init"
-	c10SWU        = "(*http2.serverConn).sendWindowUpdate"
-	c10SWU32      = "(*http2.serverConn).sendWindowUpdate32"
-	c10WWU        = "(*http2.Framer).WriteWindowUpdate"
-	c10PipeRead   = "(*http2.pipe).Read"
-	c10PipeWrite  = "(*http2.pipe).Write"
-	c10PipeLen    = "(*http2.pipe).Len"
-	c10SrvData    = "(*http2.serverConn).processData"
-	c10SrvFrame   = "(*http2.serverConn).processFrame"
-	c10CliData    = "(*http2.clientConnReadLoop).processData"
-	c10BodyRead   = "(http2.transportResponseBody).Read"
-	c10BodyClose  = "(http2.transportResponseBody).Close"
-	c10SrvConnFld = "http2.serverConn.inflow"
-	c10CliConnFld = "http2.ClientConn.inflow"
+	hcC10Add        = "(*http2.inflow).add"
+	hcC10Take       = "(*http2.inflow).take"
+	hcC10TakeBoth   = "http2.takeInflows"
+	hcC10Init       = "(*http2.inflow).init"
+	hcC10SWU        = "(*http2.serverConn).sendWindowUpdate"
+	hcC10SWU32      = "(*http2.serverConn).sendWindowUpdate32"
+	hcC10WWU        = "(*http2.Framer).WriteWindowUpdate"
+	hcC10PipeRead   = "(*http2.pipe).Read"
+	hcC10PipeWrite  = "(*http2.pipe).Write"
+	hcC10PipeLen    = "(*http2.pipe).Len"
+	hcC10SrvData    = "(*http2.serverConn).processData"
+	hcC10SrvFrame   = "(*http2.serverConn).processFrame"
+	hcC10CliData    = "(*http2.clientConnReadLoop).processData"
+	hcC10BodyRead   = "(http2.transportResponseBody).Read"
+	hcC10BodyClose  = "(http2.transportResponseBody).Close"
+	hcC10SrvConnFld = "http2.serverConn.inflow"
+	hcC10CliConnFld = "http2.ClientConn.inflow"
 )
 
-// only selects exactly the given instructions.
-func only(name string, ins ...ssa.Instruction) Sel {
+// hcOnly selects exactly the given instructions.
+func hcOnly(name string, ins ...ssa.Instruction) Sel {
 	return Sel{Name: name, F: func(p *Prog, fn *ssa.Function) []ssa.Instruction {
 		var out []ssa.Instruction
 		for _, in := range ins {
@@ -62,33 +62,33 @@ func only(name string, ins ...ssa.Instruction) Sel {
 	}}
 }
 
-// recvIs keeps calls whose argument i points at the named struct field.
-func recvIs(s Sel, i int, field string) Sel {
+// hcRecvIs keeps calls whose argument i points at the named struct field.
+func hcRecvIs(s Sel, i int, field string) Sel {
 	return s.Where(fmt.Sprintf("arg%d=&%s", i, field), func(in ssa.Instruction) bool {
-		return RecvField(CallArg(in, i)) == field
+		return HcRecvField(HcCallArg(in, i)) == field
 	})
 }
 
 func c10(c *Ctx) {
 	// ---- ownership of the counters -------------------------------------
-	c.Writers("http2.inflow.avail", c10Init, c10Add, c10Take, c10TakeBoth)
-	c.Writers("http2.inflow.unsent", c10Add)
-	c.Callers(c10Init, "(*http2.ClientConn).addStreamLocked", "(*http2.Server).serveConn", "(*http2.Transport).newClientConn", "(*http2.serverConn).newStream")
-	c.Callers(c10Take, c10CliData, c10SrvData, c10SrvFrame)
-	c.Callers(c10TakeBoth, c10CliData, c10SrvData)
-	c.Callers(c10Add, c10CliData, c10SWU, c10BodyClose, c10BodyRead)
+	c.Writers("http2.inflow.avail", hcC10Init, hcC10Add, hcC10Take, hcC10TakeBoth)
+	c.Writers("http2.inflow.unsent", hcC10Add)
+	c.Callers(hcC10Init, "(*http2.ClientConn).addStreamLocked", "(*http2.Server).serveConn", "(*http2.Transport).newClientConn", "(*http2.serverConn).newStream")
+	c.Callers(hcC10Take, hcC10CliData, hcC10SrvData, hcC10SrvFrame)
+	c.Callers(hcC10TakeBoth, hcC10CliData, hcC10SrvData)
+	c.Callers(hcC10Add, hcC10CliData, hcC10SWU, hcC10BodyClose, hcC10BodyRead)
 
 	// ---- inflow.add / take / takeInflows --------------------------------
 	stAvail, stUnsent := Stores("http2.inflow.avail"), Stores("http2.inflow.unsent")
-	c.Reject(c10Add, Union(stAvail, stUnsent), "$0 < 0")
-	c.Reject(c10Add, Union(stAvail, stUnsent), "$0+$r.avail+$r.unsent > 2147483647")
-	c.NeverAfter(c10Add, stAvail, RetConst(0, "0"), false) // the batching return does not advertise
-	c.PassThrough(c10Add, stAvail, stUnsent.StoredIs("0")) // advertised credit is no longer pending
-	c10Lin(c, c10Add, "value stored to avail", storedVals(c, stAvail), "$r.avail+$r.unsent")
-	c10Lin(c, c10Add, "value stored to unsent before the flush test", storedVals(c, stUnsent.Where("non-zero", func(in ssa.Instruction) bool {
+	c.Reject(hcC10Add, Union(stAvail, stUnsent), "$0 < 0")
+	c.Reject(hcC10Add, Union(stAvail, stUnsent), "$0+$r.avail+$r.unsent > 2147483647")
+	c.NeverAfter(hcC10Add, stAvail, RetConst(0, "0"), false) // the batching return does not advertise
+	c.PassThrough(hcC10Add, stAvail, stUnsent.StoredIs("0")) // advertised credit is no longer pending
+	hcC10Lin(c, hcC10Add, "value stored to avail", hcStoredVals(c, stAvail), "$r.avail+$r.unsent")
+	hcC10Lin(c, hcC10Add, "value stored to unsent before the flush test", hcStoredVals(c, stUnsent.Where("non-zero", func(in ssa.Instruction) bool {
 		return Term(in.(*ssa.Store).Val) != "0"
 	})), "$r.unsent+$0")
-	c10Lin(c, c10Add, "non-zero return value", func(fn *ssa.Function) []ssa.Value {
+	hcC10Lin(c, hcC10Add, "non-zero return value", func(fn *ssa.Function) []ssa.Value {
 		var out []ssa.Value
 		for _, in := range Returns().F(c.P, fn) {
 			if r := in.(*ssa.Return); len(r.Results) == 1 && Term(r.Results[0]) != "0" {
@@ -97,88 +97,90 @@ func c10(c *Ctx) {
 		}
 		return out
 	}, "$r.unsent+$0")
-	c.Reject(c10Take, Union(stAvail, RetConst(0, "true")), "$0 > $r.avail")
-	c10Lin(c, c10Take, "value stored to avail", storedVals(c, stAvail), "$r.avail-$0")
-	c.Reject(c10TakeBoth, Union(stAvail, RetConst(0, "true")), "$2 > $0.avail")
-	c.Reject(c10TakeBoth, Union(stAvail, RetConst(0, "true")), "$2 > $1.avail")
-	c.Count(c10TakeBoth, stAvail, 2, 2)
-	c10Lin(c, c10TakeBoth, "values stored to avail", storedVals(c, stAvail), "$0.avail-$2", "$1.avail-$2")
+	c.Reject(hcC10Take, Union(stAvail, RetConst(0, "true")), "$0 > $r.avail")
+	hcC10Lin(c, hcC10Take, "value stored to avail", hcStoredVals(c, stAvail), "$r.avail-$0")
+	c.Reject(hcC10TakeBoth, Union(stAvail, RetConst(0, "true")), "$2 > $0.avail")
+	c.Reject(hcC10TakeBoth, Union(stAvail, RetConst(0, "true")), "$2 > $1.avail")
+	c.Count(hcC10TakeBoth, stAvail, 2, 2)
+	hcC10Lin(c, hcC10TakeBoth, "values stored to avail", hcStoredVals(c, stAvail), "$0.avail-$2", "$1.avail-$2")
 
 	// ---- server: DATA that is not delivered to the handler ---------------
-	srvRefund := Calls(c10SWU, c10SWU32).ArgIs(1, "nil")
-	for _, fn := range []string{c10SrvFrame, c10SrvData} {
-		discard := recvIs(Calls(c10Take), 0, c10SrvConnFld)
-		c.PassThroughUnless(fn, discard, srvRefund, FailEdgeOf(discard))
-		c10RefundEqualsTaken(c, fn, discard, srvRefund, 2)
+	srvRefund := Calls(hcC10SWU, hcC10SWU32).ArgIs(1, "nil")
+	for _, fn := range []string{hcC10SrvFrame, hcC10SrvData} {
+		discard := hcRecvIs(Calls(hcC10Take), 0, hcC10SrvConnFld)
+		c.HcPassThroughUnless(fn, discard, srvRefund, HcFailEdgeOf(discard))
+		hcC10RefundEqualsTaken(c, fn, discard, srvRefund, 2)
 	}
-	c.Count(c10SrvData, recvIs(Calls(c10Take), 0, c10SrvConnFld), 2, -1)
+	c.Count(hcC10SrvData, hcRecvIs(Calls(hcC10Take), 0, hcC10SrvConnFld), 2, -1)
 	// server: DATA delivered to the body pipe
-	srvBoth := recvIs(Calls(c10TakeBoth), 0, c10SrvConnFld)
-	c.PassThroughUnless(c10SrvData, srvBoth, srvRefund, FailEdgeOf(srvBoth))
-	c10DeliveredRefund(c, c10SrvData, srvBoth, srvRefund, 2)
+	srvBoth := hcRecvIs(Calls(hcC10TakeBoth), 0, hcC10SrvConnFld)
+	c.HcPassThroughUnless(hcC10SrvData, srvBoth, srvRefund, HcFailEdgeOf(srvBoth))
+	hcC10DeliveredRefund(c, hcC10SrvData, srvBoth, srvRefund, 2)
 	// padding also returned to the stream window with the same amount
-	c10PadToStream(c)
-	c.Has(c10SWU32, Calls(c10SWU).ArgIs(0, "$r").ArgIs(1, "$0").ArgIs(2, "$1"))
+	hcC10PadToStream(c)
+	c.Has(hcC10SWU32, Calls(hcC10SWU).ArgIs(0, "$r").ArgIs(1, "$0").ArgIs(2, "$1"))
 
 	// server: closeStream returns what is still buffered, before the pipe is closed
 	closeStream := "(*http2.serverConn).closeStream"
-	bufRefund := Calls(c10SWU).ArgIs(1, "nil").ArgIs(2, "Len($0.body)")
+	bufRefund := Calls(hcC10SWU).ArgIs(1, "nil").ArgIs(2, "Len($0.body)")
 	c.PassThroughIncl(closeStream, c.Edge("$0.body != nil"), bufRefund)
 	c.Before(closeStream, bufRefund, Calls("(*http2.pipe).CloseWithError", "(*http2.pipe).BreakWithError", "(*http2.pipe).closeWithErrorAndCode"))
+
+	hcC10NoDoubleRefund(c, closeStream)
 
 	// server: bytes read by the handler
 	reqRead := "(*http2.requestBody).Read"
 	note := "(*http2.serverConn).noteBodyReadFromHandler"
-	c.PassThroughUnless(reqRead, Calls(c10PipeRead), Calls(note), EdgeWhere("$r.conn == nil"))
-	c10ArgIsResult(c, reqRead, Calls(note), 2, Calls(c10PipeRead), 0)
+	c.HcPassThroughUnless(reqRead, Calls(hcC10PipeRead), Calls(note), HcEdgeWhere("$r.conn == nil"))
+	hcC10ArgIsResult(c, reqRead, Calls(note), 2, Calls(hcC10PipeRead), 0)
 	c.Has(note, Stores("http2.bodyReadMsg.n").StoredIs("$1"))
 	c.Has(note, Stores("http2.bodyReadMsg.st").StoredIs("$0"))
-	c.PassThroughIncl(note, c.Edge("$1 > 0"), Sends("$r.bodyReadCh")) // every positive count is offered to the serve loop
+	c.PassThroughIncl(note, c.Edge("$1 > 0"), HcSends("$r.bodyReadCh")) // every positive count is offered to the serve loop
 	c.Callers("(*http2.serverConn).noteBodyRead", "(*http2.serverConn).serve")
-	c10ServeForwards(c)
-	c.Before("(*http2.serverConn).noteBodyRead", Calls(c10SWU).ArgIs(1, "nil").ArgIs(2, "$1"), Returns())
+	hcC10ServeForwards(c)
+	c.Before("(*http2.serverConn).noteBodyRead", Calls(hcC10SWU).ArgIs(1, "nil").ArgIs(2, "$1"), Returns())
 
 	// server: sendWindowUpdate turns the add result into a queued WINDOW_UPDATE
-	c.Guard(c10SWU, recvIs(Calls(c10Add), 0, c10SrvConnFld), "$0 == nil")
-	c.Guard(c10SWU, recvIs(Calls(c10Add), 0, "http2.stream.inflow"), "$0 != nil")
-	c.Count(c10SWU, Calls(c10Add).ArgIs(1, "$1"), 2, 2)
-	c.Has(c10SWU, Stores("http2.writeWindowUpdate.streamID").StoredIs("φ($0.id|0)"))
-	c.CallAfter(c10SWU, Stores("http2.writeWindowUpdate.n"), "(*http2.serverConn).writeFrame")
-	c.Writers("http2.writeWindowUpdate.n", c10SWU)
-	c.Has("(http2.writeWindowUpdate).writeFrame", Calls(c10WWU).ArgIs(1, "$r.streamID").ArgIs(2, "$r.n"))
+	c.Guard(hcC10SWU, hcRecvIs(Calls(hcC10Add), 0, hcC10SrvConnFld), "$0 == nil")
+	c.Guard(hcC10SWU, hcRecvIs(Calls(hcC10Add), 0, "http2.stream.inflow"), "$0 != nil")
+	c.Count(hcC10SWU, Calls(hcC10Add).ArgIs(1, "$1"), 2, 2)
+	c.Has(hcC10SWU, Stores("http2.writeWindowUpdate.streamID").StoredIs("φ($0.id|0)"))
+	c.CallAfter(hcC10SWU, Stores("http2.writeWindowUpdate.n"), "(*http2.serverConn).writeFrame")
+	c.Writers("http2.writeWindowUpdate.n", hcC10SWU)
+	c.Has("(http2.writeWindowUpdate).writeFrame", Calls(hcC10WWU).ArgIs(1, "$r.streamID").ArgIs(2, "$r.n"))
 
 	// ---- client: DATA processing ------------------------------------------
-	cliRefund := recvIs(Calls(c10Add), 0, c10CliConnFld)
-	cliDiscard := recvIs(Calls(c10Take), 0, c10CliConnFld)
-	c.PassThroughUnless(c10CliData, cliDiscard, cliRefund, FailEdgeOf(cliDiscard))
-	c10RefundEqualsTaken(c, c10CliData, cliDiscard, cliRefund, 1)
-	cliBoth := recvIs(Calls(c10TakeBoth), 0, c10CliConnFld)
-	c.PassThroughUnless(c10CliData, cliBoth, cliRefund, FailEdgeOf(cliBoth))
-	c10ClientDeliveredRefund(c, cliBoth, cliRefund)
+	cliRefund := hcRecvIs(Calls(hcC10Add), 0, hcC10CliConnFld)
+	cliDiscard := hcRecvIs(Calls(hcC10Take), 0, hcC10CliConnFld)
+	c.HcPassThroughUnless(hcC10CliData, cliDiscard, cliRefund, HcFailEdgeOf(cliDiscard))
+	hcC10RefundEqualsTaken(c, hcC10CliData, cliDiscard, cliRefund, 1)
+	cliBoth := hcRecvIs(Calls(hcC10TakeBoth), 0, hcC10CliConnFld)
+	c.HcPassThroughUnless(hcC10CliData, cliBoth, cliRefund, HcFailEdgeOf(cliBoth))
+	hcC10ClientDeliveredRefund(c, cliBoth, cliRefund)
 
 	// ---- client: body Read / Close ----------------------------------------
-	c10BodyReadRules(c, cliRefund)
-	c.Before(c10BodyClose, Calls("(*http2.pipe).BreakWithError"), Calls(c10PipeLen))
-	c.PassThroughIncl(c10BodyClose, c.Edge("Len(&$r.cs.bufPipe) > 0"), cliRefund.ArgIs(1, "Len(&$r.cs.bufPipe)"))
+	hcC10BodyReadRules(c, cliRefund)
+	c.Before(hcC10BodyClose, Calls("(*http2.pipe).BreakWithError"), Calls(hcC10PipeLen))
+	c.PassThroughIncl(hcC10BodyClose, c.Edge("Len(&$r.cs.bufPipe) > 0"), cliRefund.ArgIs(1, "Len(&$r.cs.bufPipe)"))
 
 	// ---- every add result becomes a WINDOW_UPDATE ---------------------------
-	c10ResultsSent(c, c10SWU, 2)
-	c10ResultsSent(c, c10CliData, 3)
-	c10ResultsSent(c, c10BodyRead, 2)
-	c10ResultsSent(c, c10BodyClose, 1)
+	hcC10ResultsSent(c, hcC10SWU, 2)
+	hcC10ResultsSent(c, hcC10CliData, 3)
+	hcC10ResultsSent(c, hcC10BodyRead, 2)
+	hcC10ResultsSent(c, hcC10BodyClose, 1)
 
 	// ---- pipe contract the refund rules rely on -----------------------------
-	c.Reject(c10PipeWrite, Calls(".Write"), "$r.err != nil")
-	c.Reject(c10PipeWrite, Calls(".Write"), "$r.breakErr != nil")
+	c.Reject(hcC10PipeWrite, Calls(".Write"), "$r.err != nil")
+	c.Reject(hcC10PipeWrite, Calls(".Write"), "$r.breakErr != nil")
 	c.Writers("http2.pipe.unread", "(*http2.pipe).closeWithError")
 	c.Has("(*http2.pipe).closeWithError", Stores("http2.pipe.unread").StoredIs("($r.unread+.Len($r.b))"))
-	c.Guard(c10PipeLen, Loads("http2.pipe.unread"), "$r.b == nil") // after a break Len reports what was dropped unread
-	c.Guard(c10PipeLen, Calls(".Len"), "$r.b != nil")
-	c10ErrMeansZero(c, c10PipeRead, ".Read")
-	c10ErrMeansZero(c, "(*http2.dataBuffer).Read", "")
+	c.Guard(hcC10PipeLen, Loads("http2.pipe.unread"), "$r.b == nil") // after a break Len reports what was dropped unread
+	c.Guard(hcC10PipeLen, Calls(".Len"), "$r.b != nil")
+	hcC10ErrMeansZero(c, hcC10PipeRead, ".Read")
+	hcC10ErrMeansZero(c, "(*http2.dataBuffer).Read", "")
 }
 
-func storedVals(c *Ctx, s Sel) func(fn *ssa.Function) []ssa.Value {
+func hcStoredVals(c *Ctx, s Sel) func(fn *ssa.Function) []ssa.Value {
 	return func(fn *ssa.Function) []ssa.Value {
 		var out []ssa.Value
 		for _, in := range s.F(c.P, fn) {
@@ -190,8 +192,8 @@ func storedVals(c *Ctx, s Sel) func(fn *ssa.Function) []ssa.Value {
 	}
 }
 
-// c10Lin: the values have exactly the listed linear forms (as a set).
-func c10Lin(c *Ctx, fnName, desc string, get func(fn *ssa.Function) []ssa.Value, specs ...string) {
+// hcC10Lin: the values have exactly the listed linear forms (as a set).
+func hcC10Lin(c *Ctx, fnName, desc string, get func(fn *ssa.Function) []ssa.Value, specs ...string) {
 	rule := "linear-form"
 	construct := fmt.Sprintf("%s: %s = {%s}", fnName, desc, strings.Join(specs, " , "))
 	fn := c.MustFn(fnName)
@@ -200,7 +202,7 @@ func c10Lin(c *Ctx, fnName, desc string, get func(fn *ssa.Function) []ssa.Value,
 	}
 	want := map[string]bool{}
 	for _, s := range specs {
-		l, err := c.P.LinSpec(s)
+		l, err := c.P.HcLinSpec(s)
 		if err != nil {
 			c.Undecided(rule, construct, err.Error())
 			return
@@ -214,7 +216,7 @@ func c10Lin(c *Ctx, fnName, desc string, get func(fn *ssa.Function) []ssa.Value,
 	}
 	got := map[string]bool{}
 	for _, v := range vals {
-		got[LinOf(v)] = true
+		got[HcLinOf(v)] = true
 	}
 	for g := range got {
 		if !want[g] {
@@ -231,9 +233,9 @@ func c10Lin(c *Ctx, fnName, desc string, get func(fn *ssa.Function) []ssa.Value,
 	c.OK(rule, construct, fmt.Sprintf("%d value(s)", len(vals)))
 }
 
-// c10RefundEqualsTaken: the refund sites reached first after each discard
+// hcC10RefundEqualsTaken: the refund sites reached first after each discard
 // take return exactly the amount that was taken.
-func c10RefundEqualsTaken(c *Ctx, fnName string, takes, refunds Sel, amountIdx int) {
+func hcC10RefundEqualsTaken(c *Ctx, fnName string, takes, refunds Sel, amountIdx int) {
 	rule := "refund-amount"
 	construct := fnName + ": refund after [" + takes.Name + "] is the taken amount"
 	fn := c.MustFn(fnName)
@@ -248,15 +250,15 @@ func c10RefundEqualsTaken(c *Ctx, fnName string, takes, refunds Sel, amountIdx i
 	}
 	n := 0
 	for _, t := range ts {
-		first := FirstReached(t, rs)
+		first := HcFirstReached(t, rs)
 		if len(first) == 0 {
 			c.Fail(rule, construct, InstrPos(t), "no refund site reachable after `"+DescribeInstr(t)+"`")
 			return
 		}
 		for _, r := range first {
 			n++
-			if LinOf(CallArg(r, amountIdx)) != LinOf(CallArg(t, 1)) {
-				c.Fail(rule, construct, InstrPos(r), fmt.Sprintf("`%s` refunds %s but %s was taken", DescribeInstr(r), Term(CallArg(r, amountIdx)), Term(CallArg(t, 1))))
+			if HcLinOf(HcCallArg(r, amountIdx)) != HcLinOf(HcCallArg(t, 1)) {
+				c.Fail(rule, construct, InstrPos(r), fmt.Sprintf("`%s` refunds %s but %s was taken", DescribeInstr(r), Term(HcCallArg(r, amountIdx)), Term(HcCallArg(t, 1))))
 				return
 			}
 		}
@@ -264,40 +266,40 @@ func c10RefundEqualsTaken(c *Ctx, fnName string, takes, refunds Sel, amountIdx i
 	c.OK(rule, construct, fmt.Sprintf("%d take(s), %d refund site(s)", len(ts), n))
 }
 
-// pipeWriteIn returns the single (*pipe).Write call of fn.
-func pipeWriteIn(c *Ctx, fn *ssa.Function) *ssa.Call {
-	ws := Calls(c10PipeWrite).F(c.P, fn)
+// hcPipeWriteIn returns the single (*pipe).Write call of fn.
+func hcPipeWriteIn(c *Ctx, fn *ssa.Function) *ssa.Call {
+	ws := Calls(hcC10PipeWrite).F(c.P, fn)
 	if len(ws) != 1 {
 		return nil
 	}
 	return ws[0].(*ssa.Call)
 }
 
-// c10DeliveredRefund (server): after takeInflows the first conn-level refund
+// hcC10DeliveredRefund (server): after takeInflows the first conn-level refund
 // is length−written (or the whole length) on the body-write-error edge and
 // length−len(data) otherwise.
-func c10DeliveredRefund(c *Ctx, fnName string, takes, refunds Sel, amountIdx int) {
+func hcC10DeliveredRefund(c *Ctx, fnName string, takes, refunds Sel, amountIdx int) {
 	rule := "refund-amount"
 	fn := c.MustFn(fnName)
 	if fn == nil {
 		return
 	}
-	w := pipeWriteIn(c, fn)
+	w := hcPipeWriteIn(c, fn)
 	ts := takes.F(c.P, fn)
 	if w == nil || len(ts) != 1 {
 		c.Undecided(rule, fnName+": delivered DATA refund", "expected one takeInflows and one pipe.Write")
 		return
 	}
-	n := Term(CallArg(ts[0], 2))
+	n := Term(HcCallArg(ts[0], 2))
 	data := Term(w.Call.Args[1])
 	wrote := Term(w) + "#0"
-	lin := func(s string) string { l, _ := c.P.LinSpec(s); return l }
-	errFact := TermAtom(Term(w)+"#1", false)
-	first := FirstReached(ts[0], refunds.F(c.P, fn))
+	lin := func(s string) string { l, _ := c.P.HcLinSpec(s); return l }
+	errFact := HcTermAtom(Term(w)+"#1", false)
+	first := HcFirstReached(ts[0], refunds.F(c.P, fn))
 	var onErr, onOK int
 	for _, r := range first {
-		got := LinOf(CallArg(r, amountIdx))
-		if FactIs(r, errFact) {
+		got := HcLinOf(HcCallArg(r, amountIdx))
+		if HcFactIs(r, errFact) {
 			onErr++
 			construct := fnName + ": refund on the body-write-error path = taken − written"
 			if got == lin(n+"-"+wrote) || got == lin(n) {
@@ -323,20 +325,20 @@ func c10DeliveredRefund(c *Ctx, fnName string, takes, refunds Sel, amountIdx int
 	}
 }
 
-// c10PadToStream: the server returns the padding to the stream window too.
-func c10PadToStream(c *Ctx) {
+// hcC10PadToStream: the server returns the padding to the stream window too.
+func hcC10PadToStream(c *Ctx) {
 	rule := "refund-amount"
-	construct := c10SrvData + ": padding returned to the stream window with the same amount"
-	fn := c.MustFn(c10SrvData)
+	construct := hcC10SrvData + ": padding returned to the stream window with the same amount"
+	fn := c.MustFn(hcC10SrvData)
 	if fn == nil {
 		return
 	}
 	var conn, strm []string
-	for _, in := range Calls(c10SWU32).F(c.P, fn) {
-		if Term(CallArg(in, 1)) == "nil" {
-			conn = append(conn, LinOf(CallArg(in, 2)))
+	for _, in := range Calls(hcC10SWU32).F(c.P, fn) {
+		if Term(HcCallArg(in, 1)) == "nil" {
+			conn = append(conn, HcLinOf(HcCallArg(in, 2)))
 		} else {
-			strm = append(strm, LinOf(CallArg(in, 2)))
+			strm = append(strm, HcLinOf(HcCallArg(in, 2)))
 		}
 	}
 	sort.Strings(conn)
@@ -348,40 +350,40 @@ func c10PadToStream(c *Ctx) {
 	c.OK(rule, construct, strings.Join(strm, "|"))
 }
 
-// c10ClientDeliveredRefund: the amount given back after takeInflows is, on
+// hcC10ClientDeliveredRefund: the amount given back after takeInflows is, on
 // every incoming edge of its merge, the whole frame / the data length where
 // bufPipe.Write failed, and the padding (or nothing) where it did not.
-func c10ClientDeliveredRefund(c *Ctx, takes, refunds Sel) {
+func hcC10ClientDeliveredRefund(c *Ctx, takes, refunds Sel) {
 	rule := "refund-amount"
-	construct := c10CliData + ": refund after takeInflows = padding, plus len(data) exactly where bufPipe.Write failed"
-	fn := c.MustFn(c10CliData)
+	construct := hcC10CliData + ": refund after takeInflows = padding, plus len(data) exactly where bufPipe.Write failed"
+	fn := c.MustFn(hcC10CliData)
 	if fn == nil {
 		return
 	}
-	w := pipeWriteIn(c, fn)
+	w := hcPipeWriteIn(c, fn)
 	ts := takes.F(c.P, fn)
 	if w == nil || len(ts) != 1 {
 		c.Undecided(rule, construct, "expected one takeInflows and one pipe.Write")
 		return
 	}
-	n := Term(CallArg(ts[0], 2))
+	n := Term(HcCallArg(ts[0], 2))
 	data := Term(w.Call.Args[1])
-	lin := func(s string) string { l, _ := c.P.LinSpec(s); return l }
+	lin := func(s string) string { l, _ := c.P.HcLinSpec(s); return l }
 	whole, pad, dlen, zero := lin(n), lin(n+"-len("+data+")"), lin("len("+data+")"), lin("0")
-	errFact := TermAtom(Term(w)+"#1", false)
-	first := FirstReached(ts[0], refunds.F(c.P, fn))
+	errFact := HcTermAtom(Term(w)+"#1", false)
+	first := HcFirstReached(ts[0], refunds.F(c.P, fn))
 	if len(first) == 0 {
 		c.Fail(rule, construct, InstrPos(ts[0]), "no connection-level refund after takeInflows")
 		return
 	}
 	for _, r := range first {
-		amount := Unwrap(CallArg(r, 1))
+		amount := HcUnwrap(HcCallArg(r, 1))
 		all := map[string]bool{}
-		for _, s := range LinSet(amount) {
+		for _, s := range HcLinSet(amount) {
 			all[s] = true
 		}
 		if !all[whole] || !all[pad] {
-			c.Fail(rule, construct, InstrPos(r), fmt.Sprintf("possible refunds %v lack the whole frame or the padding", LinSet(amount)))
+			c.Fail(rule, construct, InstrPos(r), fmt.Sprintf("possible refunds %v lack the whole frame or the padding", HcLinSet(amount)))
 			return
 		}
 		ph, ok := amount.(*ssa.Phi)
@@ -391,12 +393,12 @@ func c10ClientDeliveredRefund(c *Ctx, takes, refunds Sel) {
 		}
 		for i, e := range ph.Edges {
 			failed := false
-			for _, f := range EdgeFacts(ph.Block().Preds[i], ph.Block()) {
+			for _, f := range HcEdgeFacts(ph.Block().Preds[i], ph.Block()) {
 				if SameAtom(f, errFact) {
 					failed = true
 				}
 			}
-			for _, s := range LinSet(e) {
+			for _, s := range HcLinSet(e) {
 				okv := s == pad || s == zero
 				if failed {
 					okv = s == whole || s == dlen
@@ -411,9 +413,9 @@ func c10ClientDeliveredRefund(c *Ctx, takes, refunds Sel) {
 	c.OK(rule, construct, fmt.Sprintf("%d refund site(s)", len(first)))
 }
 
-// c10ArgIsResult: argument idx of every selected call is exactly result ri of
+// hcC10ArgIsResult: argument idx of every selected call is exactly result ri of
 // the single selected source call.
-func c10ArgIsResult(c *Ctx, fnName string, calls Sel, idx int, src Sel, ri int) {
+func hcC10ArgIsResult(c *Ctx, fnName string, calls Sel, idx int, src Sel, ri int) {
 	rule := "value-is"
 	construct := fmt.Sprintf("%s: arg%d of [%s] is result %d of [%s]", fnName, idx, calls.Name, ri, src.Name)
 	fn := c.MustFn(fnName)
@@ -427,16 +429,16 @@ func c10ArgIsResult(c *Ctx, fnName string, calls Sel, idx int, src Sel, ri int) 
 		return
 	}
 	for _, in := range cs {
-		if a := CallArg(in, idx); a == nil || !IsResultOf(a, ss[0].(*ssa.Call), ri) {
-			c.Fail(rule, construct, InstrPos(in), fmt.Sprintf("argument `%s` is not (only) that result", Term(a)))
+		if a := HcCallArg(in, idx); a == nil || !HcIsResultOf(a, ss[0].(*ssa.Call), ri) {
+			c.Fail(rule, construct, InstrPos(in), fmt.Sprintf("argument `%s` is not (hcOnly) that result", Term(a)))
 			return
 		}
 	}
 	c.OK(rule, construct, fmt.Sprintf("%d site(s)", len(cs)))
 }
 
-// c10ServeForwards: the serve loop hands the received bodyReadMsg to noteBodyRead unchanged.
-func c10ServeForwards(c *Ctx) {
+// hcC10ServeForwards: the serve loop hands the received bodyReadMsg to noteBodyRead unchanged.
+func hcC10ServeForwards(c *Ctx) {
 	rule := "value-is"
 	serve := "(*http2.serverConn).serve"
 	construct := serve + ": noteBodyRead receives the stream and count of the bodyReadMsg taken from bodyReadCh"
@@ -450,7 +452,7 @@ func c10ServeForwards(c *Ctx) {
 		return
 	}
 	for _, in := range calls {
-		st, n := Term(CallArg(in, 1)), Term(CallArg(in, 2))
+		st, n := Term(HcCallArg(in, 1)), Term(HcCallArg(in, 2))
 		// "select#k" is the value received by the k-th case of the loop's select
 		if !strings.HasPrefix(st, "select#") || !strings.HasSuffix(st, ".st") || n != strings.TrimSuffix(st, ".st")+".n" {
 			c.Fail(rule, construct, InstrPos(in), fmt.Sprintf("arguments are %s, %s", st, n))
@@ -460,47 +462,47 @@ func c10ServeForwards(c *Ctx) {
 	c.OK(rule, construct, fmt.Sprintf("%d call(s)", len(calls)))
 }
 
-// c10BodyReadRules: transportResponseBody.Read.
-func c10BodyReadRules(c *Ctx, cliRefund Sel) {
-	fn := c.MustFn(c10BodyRead)
+// hcC10BodyReadRules: transportResponseBody.Read.
+func hcC10BodyReadRules(c *Ctx, cliRefund Sel) {
+	fn := c.MustFn(hcC10BodyRead)
 	if fn == nil {
 		return
 	}
-	rs := Calls(c10PipeRead).F(c.P, fn)
+	rs := Calls(hcC10PipeRead).F(c.P, fn)
 	if len(rs) != 1 {
-		c.Undecided("anchor", c10BodyRead+": single bufPipe.Read call", fmt.Sprintf("found %d", len(rs)))
+		c.Undecided("anchor", hcC10BodyRead+": single bufPipe.Read call", fmt.Sprintf("found %d", len(rs)))
 		return
 	}
 	r := rs[0].(*ssa.Call)
-	isCount := func(v ssa.Value) bool { return IsResultOf(v, r, 0) }
-	isErr := func(v ssa.Value) bool { return IsResultOf(v, r, 1) }
-	excuse := UnionEdges(ZeroEdgeOf("the bufPipe.Read count", isCount), NonNilEdgeOf("the bufPipe.Read error", isErr))
-	c.PassThroughUnless(c10BodyRead, Calls(c10PipeRead), cliRefund, excuse)
-	c10ArgIsResult(c, c10BodyRead, cliRefund, 1, Calls(c10PipeRead), 0)
+	isCount := func(v ssa.Value) bool { return HcIsResultOf(v, r, 0) }
+	isErr := func(v ssa.Value) bool { return HcIsResultOf(v, r, 1) }
+	excuse := HcUnionEdges(HcZeroEdgeOf("the bufPipe.Read count", isCount), HcNonNilEdgeOf("the bufPipe.Read error", isErr))
+	c.HcPassThroughUnless(hcC10BodyRead, Calls(hcC10PipeRead), cliRefund, excuse)
+	hcC10ArgIsResult(c, hcC10BodyRead, cliRefund, 1, Calls(hcC10PipeRead), 0)
 	// a stored readErr short-circuits before the pipe is touched (nothing taken, nothing owed)
-	c.Reject(c10BodyRead, Calls(c10PipeRead), "$r.cs.readErr != nil")
+	c.Reject(hcC10BodyRead, Calls(hcC10PipeRead), "$r.cs.readErr != nil")
 }
 
-// c10ResultsSent: for every inflow.add call of fn, the result is written as a
+// hcC10ResultsSent: for every inflow.add call of fn, the result is written as a
 // WINDOW_UPDATE increment on every path that a result==0 branch does not excuse.
-func c10ResultsSent(c *Ctx, fnName string, floor int) {
+func hcC10ResultsSent(c *Ctx, fnName string, floor int) {
 	fn := c.MustFn(fnName)
 	if fn == nil {
 		return
 	}
-	adds := Calls(c10Add).F(c.P, fn)
+	adds := Calls(hcC10Add).F(c.P, fn)
 	if len(adds) < floor {
 		c.Undecided("floor", fnName+": inflow.add calls", fmt.Sprintf("found %d, reviewed %d", len(adds), floor))
 	}
-	c.ResultUsed(fnName, Calls(c10Add))
+	c.ResultUsed(fnName, Calls(hcC10Add))
 	perField := map[string]int{}
 	for _, in := range adds {
 		a := in.(*ssa.Call)
-		field := RecvField(a.Call.Args[0])
+		field := HcRecvField(a.Call.Args[0])
 		perField[field]++
 		name := fmt.Sprintf("add on %s #%d", field, perField[field])
 		carries := func(v ssa.Value) bool {
-			v = Unwrap(v, "mustUint31")
+			v = HcUnwrap(v, "mustUint31")
 			if v == ssa.Value(a) {
 				return true
 			}
@@ -516,7 +518,7 @@ func c10ResultsSent(c *Ctx, fnName string, floor int) {
 						return false
 					}
 				case *ssa.Call:
-					if CalleeName(&x.Call) != c10Add {
+					if CalleeName(&x.Call) != hcC10Add {
 						return false
 					}
 					if x == a {
@@ -528,13 +530,13 @@ func c10ResultsSent(c *Ctx, fnName string, floor int) {
 			}
 			return hit
 		}
-		isConn := field == c10CliConnFld || field == c10SrvConnFld
+		isConn := field == hcC10CliConnFld || field == hcC10SrvConnFld
 		var sinks []ssa.Instruction
 		bad := ""
-		EachInstr(fn, func(x ssa.Instruction) {
+		HcEachInstr(fn, func(x ssa.Instruction) {
 			switch s := x.(type) {
 			case *ssa.Call:
-				if CalleeName(&s.Call) == c10WWU && carries(s.Call.Args[2]) {
+				if CalleeName(&s.Call) == hcC10WWU && carries(s.Call.Args[2]) {
 					sinks = append(sinks, x)
 					id := Term(s.Call.Args[1])
 					if isConn && id != "0" {
@@ -545,7 +547,7 @@ func c10ResultsSent(c *Ctx, fnName string, floor int) {
 					}
 				}
 			case *ssa.Store:
-				if fa, ok := s.Addr.(*ssa.FieldAddr); ok && RecvField(fa) == "http2.writeWindowUpdate.n" && carries(s.Val) {
+				if fa, ok := s.Addr.(*ssa.FieldAddr); ok && HcRecvField(fa) == "http2.writeWindowUpdate.n" && carries(s.Val) {
 					sinks = append(sinks, x)
 				}
 			}
@@ -560,13 +562,13 @@ func c10ResultsSent(c *Ctx, fnName string, floor int) {
 			continue
 		}
 		c.OK("result-sent", construct, fmt.Sprintf("%d sink(s)", len(sinks)))
-		c.PassThroughUnless(fnName, only(name, in), only("WINDOW_UPDATE carrying it", sinks...), ZeroEdgeOf("its result", carries))
+		c.HcPassThroughUnless(fnName, hcOnly(name, in), hcOnly("WINDOW_UPDATE carrying it", sinks...), HcZeroEdgeOf("its result", carries))
 	}
 }
 
-// c10ErrMeansZero: every return of fnName either has a zero count or passes on
+// hcC10ErrMeansZero: every return of fnName either has a zero count or passes on
 // the results of the named interface call (via=="" : or has a nil error).
-func c10ErrMeansZero(c *Ctx, fnName, via string) {
+func hcC10ErrMeansZero(c *Ctx, fnName, via string) {
 	rule := "error-implies-zero-count"
 	construct := fnName + ": a non-nil error is returned with count 0"
 	fn := c.MustFn(fnName)
@@ -589,7 +591,7 @@ func c10ErrMeansZero(c *Ctx, fnName, via string) {
 		return []ssa.Value{v}
 	}
 	n := 0
-	for _, in := range NormalReturns().F(c.P, fn) {
+	for _, in := range HcNormalReturns().F(c.P, fn) {
 		r := in.(*ssa.Return)
 		if len(r.Results) != 2 {
 			c.Undecided(rule, construct, "unexpected result count")
@@ -625,4 +627,39 @@ func c10ErrMeansZero(c *Ctx, fnName, via string) {
 		return
 	}
 	c.OK(rule, construct, fmt.Sprintf("%d returned value(s)", n))
+}
+
+// hcC10NoDoubleRefund: the bytes closeStream returns to the connection window
+// (p.Len()) must not be returned a second time when the handler reads them:
+// either the pipe is broken (unread bytes dropped, BreakWithError), or
+// noteBodyRead skips the connection-level refund for a closed stream.
+func hcC10NoDoubleRefund(c *Ctx, closeStream string) {
+	rule := "no-double-refund"
+	construct := closeStream + ": bytes refunded at close are not refunded again when the handler reads them"
+	fn := c.MustFn(closeStream)
+	nbr := c.MustFn("(*http2.serverConn).noteBodyRead")
+	if fn == nil || nbr == nil {
+		return
+	}
+	refunds := Calls(hcC10SWU).ArgIs(1, "nil").ArgIs(2, "Len($0.body)").F(c.P, fn)
+	if len(refunds) == 0 {
+		c.Undecided(rule, construct, "no refund of the buffered bytes in closeStream")
+		return
+	}
+	// (a) the body pipe is broken after the refund: buffered bytes become unreadable
+	broken := len(Calls("(*http2.pipe).BreakWithError").ArgIs(0, "$0.body").F(c.P, fn)) > 0 &&
+		len(Calls("(*http2.pipe).CloseWithError", "(*http2.pipe).closeWithErrorAndCode").ArgIs(0, "$0.body").F(c.P, fn)) == 0
+	// (b) noteBodyRead does not return connection credit for a closed stream
+	guarded := true
+	conn := Calls(hcC10SWU).ArgIs(1, "nil").F(c.P, nbr)
+	for _, in := range conn {
+		if !c.HcFactsHold(in, "$0.state != 4") {
+			guarded = false
+		}
+	}
+	if broken || guarded && len(conn) > 0 {
+		c.OK(rule, construct, fmt.Sprintf("broken=%v guarded=%v", broken, guarded))
+		return
+	}
+	c.Fail(rule, construct, InstrPos(refunds[0]), "closeStream refunds pipe.Len() and then closes the pipe with CloseWithError, which leaves those bytes readable; a handler that reads them afterwards reaches noteBodyRead, whose sendWindowUpdate(nil, n) is unconditional: the same bytes are credited to the connection window twice")
 }
